@@ -179,14 +179,14 @@ META14 = {
 
 def _inst(prop, fn, tier, meta_cover):
     out = []
-    for b in hist.BASES:
+    for b in hist.EDIT_BASES:
         out.append(Instance(prop, fn, dict(base=b), name="H/%s" % b, cover=meta_cover, max_paths=20000, weight=10, time_limit=1500))
     return out
 
 
 def instances(tier):
     out = []
-    for b in hist.BASES:
+    for b in hist.EDIT_BASES:
         out.append(Instance("C14", "c14:h_wellformed", dict(base=b, nsym=1, full=(tier == "thorough")), name="H/%s/1" % b, cover=["accepted", "rejected"], max_paths=20000,
                             weight=10, time_limit=1500))
     if tier == "thorough":
